@@ -20,7 +20,7 @@ BUILTIN = {
     'std::uint8_t': 'unsigned char', 'uint8_t': 'unsigned char',
 }
 
-SCALAR_C = set(BUILTIN.values()) | {'c_enum', 'c_tabid', 'c_opaque', 'c_strid', 'c_textptr'}
+SCALAR_C = set(BUILTIN.values()) | {'c_enum', 'c_tabid', 'c_opaque', 'c_strid', 'c_textptr', 'c_vecit'}
 
 
 def strip_cv(s):
@@ -126,6 +126,8 @@ class TypeMap:
                 return self.vec(ct[4:]) if ct.startswith('vec:') else ct
         if s in BUILTIN:
             return BUILTIN[s]
+        if re.match(r'(__gnu_cxx::)?__normal_iterator<', s) or re.fullmatch(r'std::vector<.*>::(const_)?iterator', s):
+            return 'c_vecit'
         m = re.fullmatch(r'(.*)\[(\d+)\]', s)
         if m:
             raise ExtractError('C array type in expression position: ' + s)
